@@ -312,6 +312,12 @@ def support(rng, tier):
             base = compare(A, B, method)
             res.append((f'{method}_scale_invariant_{rep}', bool(np.allclose(compare(3.5 * A, 0.25 * B, method), base, atol=1e-9)),
                         dict(method=method)))
+        # extreme units (exact powers of two): a cosine / correlation of an RDM of norm 1e-26 is still defined (seeded change C17-m10)
+        for method in ['cosine', 'corr', 'cosine_cov', 'corr_cov']:
+            base = compare(A + 0.125, B + 0.125, method)
+            tiny = compare((A + 0.125) * 2.0 ** -90, (B + 0.125) * 2.0 ** 20, method)
+            res.append((f'{method}_invariant_at_extreme_scales_{rep}', bool(np.allclose(tiny, base, atol=1e-9)),
+                        dict(method=method, expected=base.tolist(), observed=np.asarray(tiny).tolist())))
         for method in ['corr', 'corr_cov']:
             base = compare(A, B, method)
             res.append((f'{method}_affine_invariant_{rep}', bool(np.allclose(compare(2 * A + 7, 0.5 * B - 3, method), base, atol=1e-9)),
